@@ -122,6 +122,7 @@ type lRun struct {
 	c01   *c01Tracer
 	c08   *c08Tracer
 	c02   *c02Tracer
+	c11   *c11Tracer
 }
 
 func (x *lRun) fail(sig, detail string) {
@@ -652,6 +653,9 @@ func (x *lRun) block(dt int64) bool {
 	if x.c02 != nil {
 		x.c02.step(BankOps(x.w.LastBlockEvents))
 	}
+	if x.c11 != nil {
+		x.c11.step()
+	}
 	x.invariants(fmt.Sprintf("after block %d", x.w.Height))
 	return true
 }
@@ -683,6 +687,9 @@ func runLedgerHistory(t *testing.T, col *Collector, prop string, h lHist) {
 	}
 	if prop == "C02" {
 		x.c02 = newC02Tracer(x)
+	}
+	if prop == "C11" {
+		x.c11 = newC11Tracer(x)
 	}
 	for k, op := range h.Ops {
 		x.step = k
@@ -722,6 +729,9 @@ func runLedgerHistory(t *testing.T, col *Collector, prop string, h lHist) {
 		if x.c02 != nil {
 			x.c02.step(BankOps(res.Events))
 		}
+		if x.c11 != nil {
+			x.c11.step()
+		}
 		col.Op(op.Op, res.Kind(), amt)
 		fmt.Fprintf(&x.fp, "%s:%s;", op.Op, res.Kind())
 		if res.OK() {
@@ -742,6 +752,9 @@ func runLedgerHistory(t *testing.T, col *Collector, prop string, h lHist) {
 		n, _ := col.rep.Extra["levelB_single_swap_blocks"].(int)
 		col.rep.Extra["levelB_single_swap_blocks"] = n + x.c01.swapsB
 		col.mu.Unlock()
+	}
+	if x.c11 != nil {
+		col.Case(h.ID, x.c11.caseText(h.ID))
 	}
 	if x.c02 != nil {
 		col.Case(h.ID, x.c02.caseText(h.ID))
@@ -803,6 +816,9 @@ func runLedger(t *testing.T, prop string) {
 		footer = "Definition M := Eval vm_compute in mismatches cases.\nPrint M.\n"
 	case "C02":
 		header = "From Coq Require Import ZArith List Bool.\nFrom Elys Require Import Base.Res Base.Fn Models.SumLedger Models.Shares Run.SharesRun.\nImport ListNotations.\nOpen Scope Z_scope.\n"
+		footer = "Definition M := Eval vm_compute in mismatches cases.\nPrint M.\n"
+	case "C11":
+		header = "From Coq Require Import ZArith List Bool.\nFrom Elys Require Import Base.Res Models.AccPool Run.AccPoolRun.\nImport ListNotations.\nOpen Scope Z_scope.\n"
 		footer = "Definition M := Eval vm_compute in mismatches cases.\nPrint M.\n"
 	case "C08":
 		header = "From Coq Require Import ZArith List Bool.\nFrom Elys Require Import Base.Res Base.Fn Models.SumLedger Models.LevLedger Run.LevLedgerRun.\nImport ListNotations.\nOpen Scope Z_scope.\n"
